@@ -44,7 +44,7 @@ class SpecLib:
         self.modules = []
         for d in dirs:
             for fn in sorted(os.listdir(d)):
-                if fn.endswith('.py') and not fn.startswith('_') and fn not in ('grammar.py', 'structs.py', 'prims.py'):
+                if fn.endswith('.py') and not fn.startswith('_') and fn not in ('grammar.py', 'structs.py', 'prims.py', 'natparse.py', 'scenarios.py', 'gen_inputs.py'):
                     self.load(os.path.join(d, fn))
 
     def load(self, path):
